@@ -25,6 +25,7 @@ from hypergraph.runners._shared.validation import (
     resolve_runtime_selected,
     validate_inputs,
     validate_map_compatible,
+    validate_map_inputs,
     validate_node_types,
     validate_runner_compatibility,
 )
@@ -239,6 +240,14 @@ class SyncRunnerTemplate(BaseRunner, ABC):
         _validate_error_handling(error_handling)
 
         map_over_list = [map_over] if isinstance(map_over, str) else list(map_over)
+        validate_map_inputs(
+            graph,
+            normalized_values,
+            map_over_list,
+            entrypoint=entrypoint,
+            select=select,
+            on_internal_override=on_internal_override,
+        )
         input_variations = list(generate_map_inputs(normalized_values, map_over_list, map_mode, clone))
         if not input_variations:
             return []
